@@ -669,7 +669,7 @@ where
                     {
                         already_declined[num_idx] = true;
                     }
-                    if already_declined[num_idx] && priorities[num_idx] > priorities[num_idx + 1] {
+                    if already_declined[num_idx] && priorities[num_idx] >= priorities[num_idx + 1] {
                         already_declined[num_idx + 1] = true;
                     }
                 }
